@@ -1,7 +1,7 @@
 #!/bin/bash
 # Rebuild /repo/_build (guard off: no hooks exist) and run the pinned API test binary; compare with BASELINE.json.
 set -e
-cmake --build /repo/_build -j16 > /tmp/svt_build.log 2>&1 || { tail -30 /tmp/svt_build.log; exit 1; }
+cmake --build /repo/_build --target SvtAv1ApiTests -j16 > /tmp/svt_build.log 2>&1 || { tail -30 /tmp/svt_build.log; exit 1; }
 cd /repo/_build
 OUT=$(mktemp)
 /repo/Bin/RelWithDebInfo/SvtAv1ApiTests --gtest_output=json:$OUT.json > $OUT.log 2>&1 || true
